@@ -413,6 +413,14 @@ inline void checkControl(TC& c, Inst& in, Method m, uint8_t sid, const void* ev)
 				fmt("inside %s of %u the control names the active states {mask %x by id, %x by type}, but exactly state %d was entered most recently without exit; %s", mname(m), sid, ctlSet, ctlSetT, expect, w.tail().c_str()));
 	}
 
+	{
+		const auto& r1 = c.request(); const auto& r2 = c.request();
+		if (&r1 != &r2) {
+			const std::string msg = fmt("inside %s of %u control.request() hands out a different object on every call: it does not name the machine's record, a pointer taken from request().payload() dangles", mname(m), sid);
+			w.V("C06", "accessor-returns-a-temporary|request", msg);
+			w.V("C18", "accessor-returns-a-temporary|request", msg);
+		} else w.stats.add("accessor_identity_checked");
+	}
 	// C06: the request waiting to be processed
 	{
 		const Req r = toReq(c.request());
@@ -456,7 +464,17 @@ inline void checkControl(TC& c, Inst& in, Method m, uint8_t sid, const void* ev)
 	{
 		const Req pv = toReq(c.previousTransitions());
 		const Req pm = toReq(in.obj->previousTransition());
-		if (!pv.same(pm)) w.V("C06", "previous-transition-view", fmt("control.previousTransitions() %s vs machine %s", pv.str().c_str(), pm.str().c_str()));
+		if (!pv.same(pm)) {
+			const std::string msg = fmt("inside %s of %u control.previousTransitions() is %s, the machine's previousTransition() is %s; %s", mname(m), sid, pv.str().c_str(), pm.str().c_str(), w.tail().c_str());
+			w.V("C06", "previous-transition-view", msg);
+			w.V("C11", "previous-transition-view-inside-callback", msg);   // the history as the callbacks see it
+		}
+		// the accessors name the machine's own records: asked twice, the same object answers (a pointer obtained from
+		// request().payload() stays good while the request is waiting)
+		{
+			const auto& p1 = c.previousTransitions(); const auto& p2 = c.previousTransitions();
+			if (&p1 != &p2) { w.V("C06", "accessor-returns-a-temporary|previousTransitions", "control.previousTransitions() hands out a different object on every call"); w.V("C18", "accessor-returns-a-temporary|previousTransitions", "control.previousTransitions() returns by value: pointers into it dangle"); }
+		}
 	}
 #endif
 	// C05: react hands every callback the caller's own event object
@@ -793,6 +811,12 @@ inline void hub(TC& c, Method m, uint8_t sid, uint8_t inj, uint64_t* mem, const 
 	checkControl<F>(c, *in, m, sid, ev);
 	if (w.stopCase) return;
 	userCode<F>(c, *in, m, sid);
+#if HAS_LOG
+	if (w.logToggleInCallbacks && w.attachHook && in->slot == 0 && in->policy == POL_CHOOSER && !w.inSnapshotCopy && w.aux.chance(1, 40)) {
+		w.attachHook(*in, !in->loggerAttached);
+		w.stats.add("logger_toggled_inside_callbacks");
+	}
+#endif
 	// (the draw is made for every chooser-driven instance so that a copy run in lock-step consumes the same decisions)
 	if (in->policy == POL_CHOOSER && w.ch.mode != Chooser::ENUM && in->st.op != OP_DTOR && w.ch.chance(1, 89)
 		&& in->slot == 0 && w.snapshotHook && !w.snapPending)
